@@ -107,33 +107,62 @@ def parse(source, tolerance=0, skip_envs=(), budget=None):
 
 SANITY_SRC = '\\a{b}$c$\\begin{e}x\\end{e}'
 SANITY_REPR = None
+# (source, tolerance, skip_envs): a small fixed battery parsed in the pristine
+# world (reference) and again after runs; it covers both tolerance modes, both
+# diagnostics, the skip option, special mode, sizing commands and lists, so
+# that state left behind by an earlier (aborted) parse shows up
+SANITY_CASES = [
+    (SANITY_SRC, 0, ()),
+    ('\\begin{e}x', 0, ()),
+    ('\\begin{e}x', 1, ()),
+    ('\\c{a', 0, ()),
+    ('\\c{a', 1, ()),
+    ('\\begin{q}$\\end{q}', 0, ('q',)),
+    ('\\begin{q}x\\end{q}', 0, ()),
+    ('\\newcommand{\\x}{\\begin{y}}\\begin{itemize}\\item a\\end{itemize}', 0, ()),
+    ('$\\left.|x\\right)$\\section Intro', 0, ()),
+]
 
 
 POISONED = False
 
 
-def sanity():
+_calls = 0
+
+
+def sanity(full=True):
     """After an aborted parse the library must still be usable.  Only the
     first failure in a world is reported: every later run of a poisoned
-    process would fail too, and only the first one is the culprit."""
-    global SANITY_REPR, POISONED
+    process would fail too, and only the first one is the culprit.
+    ``full=False``: the first probe only, and the whole battery every 8th call."""
+    global POISONED, _calls
     if POISONED:
         return True, ''
-    ok, why = _sanity()
+    _calls += 1
+    ok, why = _sanity(full or SANITY_REPR is None or _calls % 8 == 0)
     if not ok:
         POISONED = True
     return ok, why
 
 
-def _sanity():
-    global SANITY_REPR
+def _observe(src, tol, skip):
     from TexSoup import TexSoup
     try:
-        r = repr(TexSoup(SANITY_SRC).expr)
+        soup = TexSoup(src, skip_envs=skip, tolerance=tol)
+        return 'tree:' + repr(soup.expr) + '|' + str(soup)
     except Exception as e:  # noqa: BLE001
-        return False, 'sanity parse raised %s' % type(e).__name__
+        return 'raised:' + type(e).__name__
+
+
+def _sanity(full=True):
+    global SANITY_REPR
+    cases = SANITY_CASES if full else SANITY_CASES[:1]
+    got = [_observe(*c) for c in cases]
     if SANITY_REPR is None:
-        SANITY_REPR = r
-    if r != SANITY_REPR or str(TexSoup(SANITY_SRC)) != SANITY_SRC:
-        return False, 'sanity parse changed: %s' % r
+        SANITY_REPR = got
+        return True, ''
+    for c, g, w in zip(cases, got, SANITY_REPR):
+        if g != w:
+            return False, 'after this run the fixed probe TexSoup(%r, tolerance=%d, skip_envs=%r) gives %s; in the ' \
+                          'pristine interpreter it gave %s' % (c[0], c[1], c[2], g[:120], w[:120])
     return True, ''
